@@ -236,7 +236,12 @@ class SSH_Socket(ReadBuf, WriteBuf):
         if self.__sock is None:
             return -1, 'not connected'
         try:
-            self.__sock.send(data)
+            # send() may accept only a part of the data (full send buffer); write the remainder as well.
+            while len(data) > 0:
+                sent = self.__sock.send(data)
+                if sent is None:  # A socket stand-in that reports no count has taken everything.
+                    break
+                data = data[sent:]
             return 0, None
         except socket.error as e:
             return -1, str(e.args[-1])
